@@ -33,6 +33,8 @@ Apply(s, c) ==
     [] c.op = "opt"    -> [st |-> SetOpt(s, c.name, c.flag), out |-> <<>>, call |-> c]
     [] c.op = "new"    -> [st |-> New(c.role, c.ver, c.idw), out |-> <<>>, call |-> c]
     [] c.op = "restore" -> [st |-> RestorePackets(s, c.pkts), out |-> <<>>, call |-> c]
+    [] c.op = "regulate" -> LET g == Regulate(s, c.pkt)
+                            IN  [st |-> s, out |-> <<>>, call |-> [c EXCEPT !.ok = g.ok, !.pkts = IF g.ok THEN << g.pkt >> ELSE <<>>]]
     [] c.op = "restore_qos2" -> [st |-> RestoreQos2(s, SeqToSet(c.ids)), out |-> <<>>, call |-> c]
     [] OTHER -> [st |-> s, out |-> <<>>, call |-> c]
 
